@@ -58,7 +58,18 @@ def _effects(ctx, b):
             out.append(("%s := %s" % (render(path), e), b.guard(bi), bi, s["sp"]))
     for bi, t, tm in b.real_calls():
         n = tm[1]
-        if n in OPASSIGN and atoms.mentions_param(tm[2][0], "self"):
+        if n == "std::ops::AddAssign::add_assign" and render(tm[2][0]) == "self.pnl_realised" and tm[2][1][0] == "call" and \
+                mir.short(tm[2][1][1]) == "position::calculate_pnl_realised" and \
+                [render(a) for a in tm[2][1][2][:2]] == ["self.side", "self.price_entry_average"]:
+            # the body of `update_pnl_realised(qty, price, fee)` (pinned in R4) written out at the call site: the same update
+            args = []
+            for a in tm[2][1][2][2:]:
+                try:
+                    args.append(str(sympy.simplify(_to(ctx, a))))
+                except formula.NotAFormula:
+                    args.append(render(a))
+            out.append(("update_pnl_realised(%s)" % ", ".join(args), b.guard(bi), bi, t["sp"]))
+        elif n in OPASSIGN and atoms.mentions_param(tm[2][0], "self"):
             try:
                 e = OPASSIGN[n](_to(ctx, tm[2][0]), _to(ctx, tm[2][1]))
             except formula.NotAFormula:
